@@ -68,6 +68,8 @@ GROUPS = {
     ("src/arch/all/twoway.rs", r"impl FinderRev \{", "FinderRev", ["new"])],
   "PackedPairNew": [
     ("src/arch/generic/packedpair.rs", r"impl<V: Vector> Finder<V> \{", "PPFinder", ["new"])],
+  "PortablePrefilter": [
+    ("src/arch/all/packedpair/mod.rs", r"impl Finder \{", "PFinder", ["find_prefilter"])],
   "Pre": [
     ("src/memmem/searcher.rs", r"impl<'a> Pre<'a> \{", "Pre", ["find", "is_effective"])],
   "TopLevel": [
@@ -95,7 +97,9 @@ VIEWS["PPFinder"] = ("src/arch/generic/packedpair.rs",
                      [("pair", "Pair"), ("v1", "u8"), ("v2", "u8"), ("min_haystack_len", "usize")], {},
                      ["pair", "v1", "v2", "min_haystack_len"])
 VIEWS["Pre"] = ("src/memmem/searcher.rs", [("prestate", "PrefilterState")], {}, ["prestate", "prestrat"])
-VIEW_STRUCT_NAME = {"PPFinder": "Finder"}      # the Rust name of a view whose Coq name differs
+VIEWS["PFinder"] = ("src/arch/all/packedpair/mod.rs", [("pair", "Pair"), ("byte1", "u8"), ("byte2", "u8")], {},
+                    ["pair", "byte1", "byte2"])
+VIEW_STRUCT_NAME = {"PPFinder": "Finder", "PFinder": "Finder"}      # the Rust name of a view whose Coq name differs
 STRUCT_ALIAS = {"PackedPairNew": {"Finder": "PPFinder"}}
 # Oracles: calls of code that is NOT translated (the searchers themselves) become function parameters of the
 # generated definition; the tie lemma quantifies over every oracle that agrees with the model's search.
@@ -112,6 +116,7 @@ ORACLES = {
     ("memmem", "rfind"): {
         "rabinkarp::FinderRev::new().rfind": ("o_rk_rfind", [("recv",), 0], "Option<usize>", "CodeRabinKarp.FinderRev -> list N -> option N"),
         "FinderRev::new().rfind": ("o_finder_rfind", [("inner", 0), 0], "Option<usize>", "list N -> list N -> option N")},
+    ("PFinder", "find_prefilter"): {"memchr": ("o_memchr", [0, 1], "Option<usize>", "N -> list N -> option N")},
     ("Pre", "find"): {"self.prestrat.find": ("o_prefilter", [0], "Option<usize>", "list N -> option N")},
     ("SearcherRev", "rfind"): {
         "crate::memrchr": ("o_memrchr", [0, 1], "Option<usize>", "N -> list N -> option N"),
@@ -133,13 +138,14 @@ STRUCTS = {
     "SearcherRev": {"SearcherRev": "src/memmem/searcher.rs"},
     "TopLevel": {},
     "Pre": {},
+    "PortablePrefilter": {},
     "PackedPairNew": {},
     "Shift": {},
     "Suffix": {"Suffix": "src/arch/all/twoway.rs"},
     "TwoWayNew": {"TwoWay": "src/arch/all/twoway.rs", "Finder": "src/arch/all/twoway.rs", "FinderRev": "src/arch/all/twoway.rs"},
 }
 # a group may call the functions and use the types of other groups (their Code<G>.v is imported, not repeated)
-GROUP_IMPORTS = {"TwoWayNew": ["ByteSet", "Suffix", "Shift"], "PackedPairNew": ["Pair"], "Pre": ["Prefilter"]}
+GROUP_IMPORTS = {"TwoWayNew": ["ByteSet", "Suffix", "Shift"], "PackedPairNew": ["Pair"], "Pre": ["Prefilter"], "PortablePrefilter": ["Pair"]}
 # Types and functions of OTHER modules used with their module path (two modules define a `FinderRev`): the generated
 # file `Require`s the other group's file without importing it and uses qualified names.
 # group -> (required groups, {rust type path: Coq type}, {rust call path: (Coq function, takes fuel, param types, result type)})
@@ -165,9 +171,9 @@ ENUMS = {"Shift": {"Shift": "src/arch/all/twoway.rs"},
          "SearcherRev": {"SearcherRevKind": "src/memmem/searcher.rs"},
          "Suffix": {"SuffixKind": "src/arch/all/twoway.rs", "SuffixOrdering": "src/arch/all/twoway.rs"}}
 VIEW_GROUPS = {"IterHint": ["FindIter", "Iter"], "IterNext": ["FindIter", "FindRevIter"], "PackedPairNew": ["PPFinder"],
-               "Pre": ["Pre"]}
+               "Pre": ["Pre"], "PortablePrefilter": ["PFinder"]}
 # type hints for locals whose type Rust infers backwards
-LOCAL_HINTS = {("ApproximateByteSet", "new", "bits"): "u64",
+LOCAL_HINTS = {("ApproximateByteSet", "new", "bits"): "u64", ("PFinder", "find_prefilter", "i"): "usize",
                ("Pair", "with_ranker", "index1"): "u8", ("Pair", "with_ranker", "index2"): "u8",
                ("Suffix", "forward", "candidate_start"): "usize", ("Suffix", "forward", "offset"): "usize",
                ("Suffix", "reverse", "candidate_start"): "usize", ("Suffix", "reverse", "offset"): "usize"}
@@ -395,6 +401,13 @@ class P:
             c = self.expr(nostruct=True)
             body = self.block()
             return ("while", c, body)
+        if v == "loop":
+            self.eat()
+            body = self.block()
+            return ("while", ("path", ["true"]), body)
+        if v == "continue":
+            self.eat(); self.eat(";")
+            return ("continue",)
         if v == "match":
             e = self.primary(False)
             if self.peek() == ";":
@@ -566,6 +579,16 @@ class P:
             return e
         if v == "{":
             return ("block", self.block())
+        if v == "|":
+            self.eat("|")
+            names = []
+            while self.peek() != "|":
+                self.accept("&"); self.accept("mut")
+                names.append(self.eat())
+                if not self.accept(","):
+                    break
+            self.eat("|")
+            return ("closure", names, self.expr())
         if v == "if":
             return self.if_()
         if v == "match":
@@ -579,7 +602,10 @@ class P:
                     self.eat()
                     pat = ("pguard", pat, self.expr(nostruct=True))
                 self.eat("=>")
-                if self.peek() == "return":
+                if self.peek() == "continue":
+                    self.eat()
+                    body = ("cont",)
+                elif self.peek() == "return":
                     self.eat()
                     body = ("ret", None if self.peek() in (",", "}") else self.expr())
                 else:
@@ -671,6 +697,9 @@ class Tr:
         self.aliases = VIEWS[prefix][2] if prefix in VIEWS else {}
         self.enums = {}
         self.in_loop = False
+        self.loop_exits = False
+        self.loop_back = None
+        self.loop_oracles = {}
         self.oracles_used = {}
         self.type_consts_used = {}
         self.struct_alias = {}
@@ -1007,6 +1036,16 @@ class Tr:
             if p.ty == "&[u8]" and name == "split_at" and len(args) == 1:
                 ra = self.expr(args[0], env, "usize")
                 return self.bind(ra, lambda pa: R(f"(split_at_chk {p.text} {pa.text})", False, "(&[u8],&[u8])"))
+            if p.ty.startswith("Option<") and name == "map_or" and len(args) == 2 and args[1][0] == "closure" and len(args[1][1]) == 1:
+                inner = p.ty[7:-1]
+                rd = self.expr(args[0], env, want)
+                v_ = self.fresh(args[1][1][0])
+                env2 = {k_: list(x) for k_, x in env.items()}
+                env2.setdefault(args[1][1][0], []).append((v_, inner))
+                rb_ = self.expr(args[1][2], env2, want)
+                if not (rd.simple and rb_.simple):
+                    raise TieBroken(f"{w}: map_or with effects")
+                return R(f"(match {p.text} with Some {v_} => {rb_.text} | None => {rd.text} end)", True, rb_.ty)
             if p.ty.startswith("Option<") and name == "unwrap_or" and len(args) == 1:
                 inner = p.ty[7:-1]
                 ra = self.expr(args[0], env, inner)
@@ -1253,7 +1292,7 @@ class Tr:
             return cont(env)
         if s[0] == "while":
             return self.while_(s, env, cont)
-        if s[0] == "let" and s[3][0] == "match" and any(a[1][0] == "ret" for a in s[3][2]):
+        if s[0] == "let" and s[3][0] == "match" and any(a[1][0] in ("ret", "cont") for a in s[3][2]):
             # let x = match opt { None => return e, Some(v) => v' };
             scr = self.expr(s[3][1], env)
             def fm(p):
@@ -1271,9 +1310,15 @@ class Tr:
                         key, binder = "Some", " " + v
                     else:
                         raise TieBroken(f"{w}: unsupported Option pattern")
-                    if body[0] == "ret":
-                        if self.in_loop:
+                    if body[0] == "cont":
+                        if not self.in_loop or self.loop_back is None:
+                            raise TieBroken(f"{w}: continue outside a loop")
+                        r_ = self.loop_back(env)
+                    elif body[0] == "ret" and self.in_loop:
+                        if not self.loop_exits or body[1] is None:
                             raise TieBroken(f"{w}: return inside a while loop")
+                        r_ = self.bind(self.expr(body[1], env2, self.fn["ret"]), self.loop_return)
+                    elif body[0] == "ret":
                         r_ = self.finish(R("tt", True, "()"), env2) if body[1] is None else \
                             self.bind(self.expr(body[1], env2, self.fn["ret"]), lambda pv: self.finish(pv, env2))
                     else:
@@ -1289,7 +1334,7 @@ class Tr:
                 return R(f"(match {p.text} with Some{outs['Some'][0]} => {outs['Some'][1]} | None => {outs['None'][1]} end)", False, "ret")
             return self.bind(scr, fm)
         if s[0] == "let" and s[3][0] == "try":
-            if self.in_loop:
+            if self.in_loop and not self.loop_exits:
                 raise TieBroken(f"{w}: `?` inside a loop")
             if not self.fn["ret"].startswith("Option<"):
                 raise TieBroken(f"{w}: `?` in a function that does not return an Option")
@@ -1301,9 +1346,14 @@ class Tr:
                 env2 = {k_: list(x) for k_, x in env.items()}
                 env2.setdefault(s[1], []).append((v, s[2] or p.ty[7:-1]))
                 r2 = cont(env2)
-                rn = self.finish(R("None", True, self.fn["ret"]), env)
+                rn = self.loop_return(R("None", True, self.fn["ret"])) if self.in_loop else self.finish(R("None", True, self.fn["ret"]), env)
                 return R(f"(match {p.text} with Some {v} =>\n  {r2.mon()} | None => {rn.mon()} end)", False, "ret")
             return self.bind(r, fq)
+        if s[0] == "assign" and s[3][0] == "try" and s[2] in ("=", "+="):
+            # x = e?;  x += e?;
+            tmp = "q__" + str(self.n)
+            return self.stmts([("let", tmp, None, s[3]),
+                               ("assign", s[1], s[2], ("path", [tmp]))] + rest, env, k)
         if s[0] == "let":
             hint = LOCAL_HINTS.get((self.prefix, self.fn["name"], s[1]))
             r = self.expr(s[3], env, s[2] or hint)
@@ -1335,8 +1385,15 @@ class Tr:
                 r2 = cont(env2)
                 return R(f"(let {vs[0]} := fst {p.text} in let {vs[1]} := snd {p.text} in\n  {r2.mon()})", False, "ret")
             return self.bind(r, ft)
+        if s[0] == "continue":
+            if not self.in_loop or self.loop_back is None:
+                raise TieBroken(f"{w}: continue outside a loop")
+            return self.loop_back(env)
         if s[0] == "return" and self.in_loop:
-            raise TieBroken(f"{w}: return inside a while loop")
+            if not self.loop_exits or s[1] is None:
+                raise TieBroken(f"{w}: return inside a while loop")
+            r = self.expr(s[1], env, self.fn["ret"])
+            return self.bind(r, self.loop_return)
         if s[0] == "return":
             if s[1] is None:
                 return self.finish(R("tt", True, "()"), env)
@@ -1504,8 +1561,10 @@ class Tr:
                         raise TieBroken(f"{self.what}: unsupported assignment target in a loop")
                 elif s[0] in ("expr", "tail"):
                     ex(s[1])
-                elif s[0] in ("while", "for", "return"):
+                elif s[0] in ("while", "for"):
                     raise TieBroken(f"{self.what}: {s[0]} inside a while loop")
+                elif s[0] == "let" and s[3][0] == "try" and s[3][1][0] == "call":
+                    pass
         def ex(e):
             if e[0] == "if":
                 blk(e[2]); blk(e[3] or [])
@@ -1523,6 +1582,19 @@ class Tr:
                     add(e_[1][0])
         blk(ss)
         return out
+
+    def body_exits(self, ss):
+        def ex(e):
+            if not isinstance(e, tuple):
+                return False
+            if e and e[0] in ("try", "ret", "return"):
+                return True
+            return any(ex(x) if isinstance(x, tuple) else (any(ex(y) for y in x) if isinstance(x, list) else False) for x in e[1:])
+        return any(ex(st) for st in ss)
+
+    def loop_return(self, val):
+        """`return val` inside a loop with exits: the loop function yields Ret val"""
+        return R(f"(Ok (Ret {val.text}))", False, "ret")
 
     def while_(self, s, env, cont):
         """while cond { body }  ==>  a top-level Fixpoint on explicit fuel; running out of fuel is Panic OutOfFuel"""
@@ -1544,17 +1616,34 @@ class Tr:
                 envl[n] = list(st)
         for n, (pn, pt) in zip(carried, params):
             envl[n] = [(pn, pt)]
+        exits = self.body_exits(body)
+        if exits and self.fn["selfmode"] == "mut":
+            raise TieBroken(f"{w}: return out of a loop in a &mut self function")
         self.in_loop = True
+        self.loop_exits = exits
         rc = self.expr(cond, envl, "bool")
         def back(env_after):
             cur = [self.lookup(self.scope_exit(envl, env_after), n)[0] for n in carried]
             return R(f"({lname} " + " ".join(pn for pn, _ in oparams) + " fuel' " + " ".join(cur) + ")", False, "ret")
+        self.loop_back = back
         rb = self.stmts(body, {k_: list(v) for k_, v in envl.items()}, back)
         self.in_loop = False
-        tup = "(" + ", ".join(pn for pn, _ in params) + ")"
+        self.loop_exits = False
+        tup = "(" + ", ".join(pn for pn, _ in params) + ")" if len(params) > 1 else params[0][0]
         tty = " * ".join(coq_type(pt, self.structs, w) for _, pt in params)
-        step = self.bind(rc, lambda pc: R(f"(if {pc.text}\n  then {rb.mon()}\n  else Ok {tup})", False, "ret"))
-        binders = " ".join(f"({pn} : {coq_type(pt, self.structs, w)})" for pn, pt in oparams) + " (fuel : nat) " + \
+        if exits:
+            tty = f"ctl {coq_type(self.fn['ret'], self.structs, w)} ({tty})"
+            step = self.bind(rc, lambda pc: R(f"(if {pc.text}\n  then {rb.mon()}\n  else Ok (Go {tup}))", False, "ret"))
+        else:
+            step = self.bind(rc, lambda pc: R(f"(if {pc.text}\n  then {rb.mon()}\n  else Ok {tup})", False, "ret"))
+        onames = sorted(self.oracles_used)
+        if onames:      # oracles used inside the loop are parameters of the loop function too
+            otxt = " ".join(onames)
+            fix_ = lambda t: t.replace(f"({lname} ", f"({lname} {otxt} ")
+            step = R(fix_(step.mon()), False, "ret")
+            self.loop_oracles[lname] = otxt
+        binders = "".join(f"({on_} : {self.oracles_used[on_]}) " for on_ in onames) + \
+                  " ".join(f"({pn} : {coq_type(pt, self.structs, w)})" for pn, pt in oparams) + " (fuel : nat) " + \
                   " ".join(f"({pn} : {coq_type(pt, self.structs, w)})" for pn, pt in params)
         self.aux.append(f"(* the while loop of {self.prefix}::{self.fn['name']}; state: {', '.join(carried)} *)\n"
                         f"Fixpoint {lname} {binders} {{struct fuel}} : res ({tty}) :=\n"
@@ -1568,9 +1657,14 @@ class Tr:
             v = self.fresh(n)
             env2[n] = env2[n][:-1] + [(v, self.lookup(env, n)[1])]
             outs.append(v)
-        r2 = cont(env2)
-        call = f"({lname} " + " ".join(b[0] for _, b in others) + " fuel " + " ".join(self.lookup(env, n)[0] for n in carried) + ")"
+        r2 = cont(env2) if cond != ("path", ["true"]) else R("(Panic OutOfFuel)", False, "ret")   # `loop {}` never falls through
+        call = f"({lname} " + (self.loop_oracles.get(lname, "") + " " if self.loop_oracles.get(lname) else "") + \
+               " ".join(b[0] for _, b in others) + " fuel " + " ".join(self.lookup(env, n)[0] for n in carried) + ")"
         pat = "'(" + ", ".join(outs) + ")" if len(outs) > 1 else outs[0]
+        if exits:
+            rv = self.fresh("ret")
+            fin = self.finish(R(rv, True, self.fn["ret"]), env)
+            return R(f"({res} <-- {call};;\n  match {res} with Ret {rv} => {fin.mon()} | Go {pat.lstrip(chr(39))} =>\n  {r2.mon()} end)", False, "ret")
         return R(f"({res} <-- {call};;\n  let {pat} := {res} in\n  {r2.mon()})", False, "ret")
 
     def mut_call(self, e, env, k):
@@ -1609,7 +1703,7 @@ class Tr:
     def has_effects(self, e):
         """does this if-expression contain return / assignment statements?"""
         def blk(b):
-            return any(s[0] in ("return", "assign", "assert", "for") or
+            return any(s[0] in ("return", "assign", "assert", "for", "continue") or
                        (s[0] in ("expr", "tail") and s[1][0] == "if" and self.has_effects(s[1])) or
                        (s[0] == "expr" and s[1][0] == "mcall")
                        for s in b)
